@@ -2,7 +2,7 @@
 from props import C03
 from props.conc import *
 
-THEOREMS = ["C04_no_lost_wakeup", "C04_deadlock_free", "C04_bounded_steps"]
+THEOREMS = ["C04_no_lost_wakeup", "C04_deadlock_free", "C04_bounded_steps", "C04_protocol_text_is_the_modelled_one"]
 
 
 def fault_cases(ck, count):
